@@ -57,6 +57,8 @@ mod c04 {
             h.proto.set_initiator();
         }
         h.proto.proto_opcode = kani::any();
+        // (the protocol id too: no kind of message - stand-alone acknowledgements included - is exempt from the window)
+        h.proto.proto_id = kani::any();
 
         let r = s.post_recv(&h);
 
@@ -4213,7 +4215,7 @@ mod c20 {
         kani::cover!(matches!(r, Some(i) if i == before.exch_len), "appends a slot");
     }
 
-    // TIER: quick
+    // TIER: quick   ALSO: C10
     // KIND: complete
     #[kani::proof]
     #[kani::unwind(8)]
